@@ -131,6 +131,19 @@ def run(rep, tier, rng):
                         add(f"{chk} {cdims} {cq(x, va)} {cq(y, vb)} {tol} {obs_t(o, enc_num)}",
                             dict(base, op=nm, py=f"a.{nm}(b)" if nm != "@" else "a @ b", pyab=pyab, obs=repr(o)[:300]),
                             (nm, al, d, tuple(x), tuple(y), va, vb))
+                    # ---- the same object as both operands (a op a), incl. the zero vector ----
+                    for p_, vec_, voc_, nm_ in ((a, x, va, "a"), (b2, y, vb, "b")):
+                        for opn, cop, fn in [("+", "BAdd", lambda: p_ + p_), ("-", "BSub", lambda: p_ - p_), ("*", "BMul", lambda: p_ * p_)]:
+                            o = c.observe(fn)
+                            add(f"check_sp_bin {cdims} {cop} {cq(vec_, voc_)} (optr {cq(vec_, voc_)}) false {tol} {obs_t(o, enc_ptr)}",
+                                dict(base, op=f"ptr{opn}same-object", py=f"{nm_} {opn} {nm_}", pyab=pyab, obs=repr(o)[:300]),
+                                ("same" + opn, al, d, tuple(vec_), voc_))
+                        for nm, chk, fn in [("dot", "check_sp_dot", lambda: p_.dot(p_)), ("compare", "check_sp_compare", lambda: p_.compare(p_)),
+                                            ("distance", "check_sp_distance", lambda: p_.distance(p_)), ("mse", "check_sp_mse", lambda: p_.mse(p_))]:
+                            o = c.observe(fn)
+                            add(f"{chk} {cdims} {cq(vec_, voc_)} {cq(vec_, voc_)} {tol} {obs_t(o, enc_num)}",
+                                dict(base, op=nm + "-same-object", py=f"{nm_}.{nm}({nm_})", pyab=pyab, obs=repr(o)[:300]),
+                                (nm + "-same", al, d, tuple(vec_), voc_))
                     # compare / distance are cosines: the same for operands of tiny magnitude (exact powers of two)
                     if any(x) and any(y) and va == vb:
                         for e2 in (-14, -34):
